@@ -257,7 +257,7 @@ impl Exec {
                 match into_vec_roundtrip(b, t) {
                     Ok(nb) => {
                         if self.claimed[r] {
-                            self.tag("finding:intovec-claimed");
+                            self.tag("iv:ok:claimed");
                         }
                         let nr = self.new_rid();
                         self.slots[i] = Slot::Buf(nb, nr);
@@ -309,17 +309,34 @@ impl Exec {
             })(),
             ("tr", 2) => (|| {
                 let (i, len) = (g(0)?, g(1)?);
+                let mut drift: Option<(usize, usize)> = None;
                 let mut hit = false;
                 let r = match self.slots.get_mut(i) {
                     Some(Slot::Mut(m, r)) => {
                         hit = self.claimed[*r];
+                        let before = self.pool.used();
                         m.truncate(len);
+                        let after = self.pool.used();
+                        if hit && after != before {
+                            // known finding: `truncate` resizes the reservation to `len` although
+                            // the capacity is unchanged.  Report it on its own (oracle), then
+                            // restore the capacity-based reservation so that the rest of the
+                            // history is still compared exactly against the model.
+                            drift = Some((before, after));
+                            m.claim(&self.pool);
+                        }
                         Some("ok")
                     }
                     _ => None,
                 };
                 if hit {
-                    self.tag("finding:mutlen-claimed");
+                    self.tag("tr:claimed");
+                }
+                if let Some((b, a)) = drift {
+                    self.oracle.push(format!(
+                        "KNOWN:finding:mutlen-claimed|MutableBuffer::truncate on a claimed buffer changed pool.used() from {} to {} although its capacity is unchanged",
+                        b, a
+                    ));
                 }
                 r
             })(),
@@ -476,7 +493,6 @@ fn run_hist(nslots: usize, ops: &str) -> (String, String, Vec<String>) {
     let fin: Vec<usize> = ex.owners.iter().map(|c| c.load(Ordering::SeqCst)).collect();
     groups.push(format!("D={}", show_list(&fin)));
     // oracle 3: after dropping everything each owner was dropped exactly once, pool is empty
-    let known_pool_finding = ex.tags.iter().any(|t| t.starts_with("finding:"));
     for s in ex.slots.iter_mut() {
         drop(std::mem::replace(s, Slot::Empty));
     }
@@ -484,9 +500,6 @@ fn run_hist(nslots: usize, ops: &str) -> (String, String, Vec<String>) {
         ex.oracle.push("after dropping every handle some owner was not dropped exactly once".into());
     }
     if ex.pool.used() != 0 {
-        if known_pool_finding {
-            ex.tag("pool-nonzero-at-end");
-        }
         ex.oracle.push(format!("after dropping every handle the pool still reports {} bytes", ex.pool.used()));
     }
     if shared_seen && ex.good_ops >= 5 {
@@ -569,7 +582,7 @@ fn gen_hist(rng: &mut Rng) -> String {
     let steps = 5 + rng.usize(56); // ≤ 60 ops
     let mut ex = Exec::new(n);
     let mut toks: Vec<String> = vec![];
-    let allow_findings = rng.chance(1, 8);
+    let allow_findings = true;
     for _ in 0..steps {
         let empties: Vec<usize> = (0..n).filter(|i| ex.is_empty(*i)).collect();
         let bufs: Vec<usize> = (0..n).filter(|i| matches!(ex.slots[*i], Slot::Buf(..))).collect();
@@ -678,7 +691,12 @@ fn main() {
         let (a, tags, oracle) = run_case(&line);
         let tags = format!("{} {}", tags, extra);
         for o in oracle {
-            sink.oracle_failure(line.clone(), o, &tags);
+            // a recorded finding is reported under its own key only; every other oracle failure
+            // (and every disagreement with the model) of the same case stays a violation
+            match o.strip_prefix("KNOWN:").and_then(|x| x.split_once('|')) {
+                Some((key, what)) => sink.oracle_failure(line.clone(), what.to_string(), key),
+                None => sink.oracle_failure(line.clone(), o, &tags),
+            }
         }
         sink.case(line, a, tags.trim());
     };
